@@ -283,6 +283,8 @@ struct World {
     /// files whose events reached device 2 in a sync during which device 2's file log was
     /// rewound (auto-merge of the file log)
     via_auto_merge: BTreeSet<Key>,
+    /// number of sync points so far (every other one delays a blob on the server)
+    sync_points: usize,
     /// secrets whose blob was (re)written since the last decrypt check, per device
     /// (decrypting costs one scrypt run, so only touched blobs are decrypted)
     dirty1: BTreeSet<SecretId>,
@@ -604,6 +606,25 @@ impl World {
                 }
             }
         }
+        // a late upload: at every other sync point one of the blobs device 2 still needs is
+        // moved aside on the server (as if its upload were still in flight) while at least one
+        // other new blob is there; it comes back 1.5 s after device 2's first sync, and the
+        // device must still end up with it (failed downloads are retried)
+        self.sync_points += 1;
+        let mut late: Option<(PathBuf, PathBuf)> = None;
+        if self.sync_points % 4 != 1 {
+            let have2: BTreeSet<Key> = list_blobs(&self.d2.files_dir()).blobs.keys().cloned().collect();
+            let pending: Vec<&Key> = expected.difference(&have2).collect();
+            if pending.len() >= 2 {
+                let k = pending[pending.len() / 2];
+                let path = self.server_files_dir().join(&k.0).join(&k.1).join(&k.2);
+                let aside = path.with_extension("late");
+                if std::fs::rename(&path, &aside).is_ok() {
+                    rep.count("late_blobs_on_server", 1);
+                    late = Some((aside, path));
+                }
+            }
+        }
         // server -> device 2; "synced" means converged: a device that itself logged file
         // events while merging (a merged folder deletion) needs a further round (bound as in C04)
         let mut expected2: BTreeSet<Key> = BTreeSet::new();
@@ -618,6 +639,10 @@ impl World {
                 Ok(s) => s.iter().map(key_of).collect(),
                 Err(_) => return,
             };
+            if let Some((aside, path)) = late.take() {
+                tokio::time::sleep(Duration::from_millis(1500)).await;
+                let _ = std::fs::rename(&aside, &path);
+            }
             let commits_after = file_log_commits(&self.d2.account).await;
             if !commits_after.starts_with(&commits_before) {
                 rep.count("device2_file_log_auto_merges", 1);
@@ -938,7 +963,7 @@ async fn history(args: &Args, rep: &mut Reporter, rng: &mut Rng, base: &Path, p:
     let default_folder = *d1.account.default_folder().await.ok_or_else(|| anyhow::anyhow!("no default folder"))?.id();
     let tmp = dir.join("tmp");
     std::fs::create_dir_all(&tmp)?;
-    let mut w = World { server, account_id: p.account_id, d1, d2, folders: vec![default_folder], default_folder, secrets: BTreeMap::new(), notes: BTreeMap::new(), via_auto_merge: BTreeSet::new(), dirty1: BTreeSet::new(), dirty2: BTreeSet::new(), log: vec![], tmp, max_bytes: args.by_tier(200_000, 2_000_000) };
+    let mut w = World { server, account_id: p.account_id, d1, d2, folders: vec![default_folder], default_folder, secrets: BTreeMap::new(), notes: BTreeMap::new(), via_auto_merge: BTreeSet::new(), sync_points: 0, dirty1: BTreeSet::new(), dirty2: BTreeSet::new(), log: vec![], tmp, max_bytes: args.by_tier(200_000, 2_000_000) };
     let n_ops = args.by_tier(8usize, 24usize);
     let polls = args.by_tier(400usize, 1200usize);
     let mut kinds: BTreeSet<&'static str> = BTreeSet::new();
